@@ -111,6 +111,9 @@ class PipelineUnit(WeaverUnit):
                 if not rfa_units.adaptive_windows_exact(chk)[2]:
                     continue
             bad = dict(c["script"][-2]); bad["n"] = [1.5, 1.75, 1, 0, -3, 1.5][i % 6]; bad["invalid"] = "n_below_2"
+            if s in ("linfixed", "cubic"):
+                # ... or refused by Python itself: a keyword this strategy does not take, left over from another one (TypeError)
+                bad = dict(c["script"][-2]); bad.update({"invalid": "recreate_kwarg", "extra_kw": {"beta": 0.5}, "harness_only": True, "expect_exc": "TypeError"})
             c["script"].insert(len(c["script"]) - 2, bad)
             c["len"] = len(c["script"])
             cases.append(c)
